@@ -61,6 +61,13 @@ Theorem C08_depth : forall decompress ft v2 cmp stream,
   c_depth (snd (decode decompress ft v2 cmp stream)) <= DEPTH_LIMIT.
 Proof. exact decode_depth. Qed.
 
+(* "does not overflow the stack": the stack predicted from the recursion depth (measured constants, see
+   Model/FrameCustom.v) is at most STACK_LIMIT = 16 KiB + 257 * 1.5 KiB < 512 KiB for every input; the tie
+   compares every input's measured high-water mark with the prediction for that input *)
+Theorem C08_stack : forall decompress ft v2 cmp stream,
+  stack_bound (snd (decode decompress ft v2 cmp stream)) <= STACK_LIMIT /\ STACK_LIMIT < 2 ^ 19.
+Proof. exact decode_stack. Qed.
+
 (* the fuel of the counted loops, of the type parsers and of the custom-type string parser is never
    exhausted: the model is the decoder on ALL inputs, not on those for which some fuel suffices *)
 Theorem C08_fuel_enough : forall decompress ft v2 cmp stream st,
@@ -191,6 +198,17 @@ Example C08_ex_depth :
   /\ is_rejected (fst (decode (fun _ => None) ex_ft true false (ex_rows_with_type (ex_nest 128 (enc_short 32) (enc_short 9))))) = false
   /\ fst (decode (fun _ => None) ex_ft true false (ex_rows_with_type (ex_nest 129 (enc_short 32) (enc_short 9))))
      = OErr StBody ETypeNestingTooDeep.
+Proof. repeat split; vm_compute; reflexivity. Qed.
+
+(* the prediction for the deepest accepted type (129 levels) and what the tie's predicate does with
+   measurements: 118 879 bytes were measured for such an input, 269 399 for 250 levels *)
+Example C08_ex_stack :
+  stack_bound (snd (decode (fun _ => None) ex_ft true false (ex_rows_with_type (ex_nest 128 (enc_short 32) (enc_short 9))))) = 214528 /\
+  stack_in_bound (snd (decode (fun _ => None) ex_ft true false (ex_rows_with_type (ex_nest 128 (enc_short 32) (enc_short 9))))) 118879 = true /\
+  stack_in_bound (snd (decode (fun _ => None) ex_ft true false (ex_rows_with_type (ex_nest 128 (enc_short 32) (enc_short 9))))) 300000 = false /\
+  stack_in_bound (snd (decode (fun _ => None) ex_ft true false [132; 0; 0; 1; 2; 0; 0; 0; 0])) 16384 = true /\
+  stack_in_bound (snd (decode (fun _ => None) ex_ft true false [132; 0; 0; 1; 2; 0; 0; 0; 0])) 16385 = false /\
+  STACK_LIMIT = 411136.
 Proof. repeat split; vm_compute; reflexivity. Qed.
 
 Example C08_ex_is_rejected :
@@ -327,6 +345,7 @@ Print Assumptions C08_truncation_body.
 Print Assumptions C08_alloc.
 Print Assumptions C08_alloc_plain.
 Print Assumptions C08_depth.
+Print Assumptions C08_stack.
 Print Assumptions C08_fuel_enough.
 Print Assumptions C08_chunking.
 Print Assumptions C08_tablet_roundtrip.
